@@ -1,6 +1,7 @@
 import UtilModel.RefCount.Props
 import UtilModel.RefCount.ObsOnce
 import UtilModel.RefCount.ObsHeld
+import UtilModel.RefCount.ObsHidden
 open UtilModel UtilModel.RefCount
 #print axioms UtilModel.accepts_sound
 #print axioms UtilModel.accepted_satisfies
@@ -24,3 +25,4 @@ open UtilModel UtilModel.RefCount
 #print axioms RefCount.th_frame
 #print axioms RefCount.items_frame
 #print axioms RefCount.rel_held_obs
+#print axioms RefCount.rel_hidden_obs
